@@ -20,10 +20,12 @@ cp /tmp/seeded_$name.diff /verif/seeded/$name/patch.diff
 cp $demo /verif/seeded/$name/
 [ -f notes.txt ] && cp notes.txt /verif/seeded/$name/agent_notes.txt
 cd /repo && git apply --check /verif/seeded/$name/patch.diff || { echo "PATCH DOES NOT APPLY TO /repo"; exit 2; }
-git apply /verif/seeded/$name/patch.diff
+# run the checks against a scratch copy of /repo with the change applied (evidence of such runs goes to
+# evidence-scratch/, never into the committed record)
+scratch=$(mktemp -d /tmp/seeded-repo.XXXXXX)
+cp -r /repo/tdda $scratch/ && (cd $scratch && patch -p1 -s < /verif/seeded/$name/patch.diff)
 for p in "$@"; do
-  echo "== ./check $p on /repo with the change:"
-  /verif/check $p 2>&1 | grep -v conda | grep -E "^(VIOLATION|SUMMARY|CHECKER|UNDECIDED)" | cut -c1-260 | head -8
+  echo "== ./check $p on a copy of /repo with the change:"
+  VERIF_REPO=$scratch /verif/check $p 2>&1 | grep -v conda | grep -E "^(VIOLATION|SUMMARY|CHECKER|UNDECIDED)" | cut -c1-260 | head -8
 done
-git checkout -- tdda
-git status --short | head -3
+rm -rf $scratch
